@@ -14,7 +14,7 @@ def oracle_synth(pid, case, resp):
     if resp.get("skipped"):
         return []
     if "panic" in resp:
-        return ["the analysis panicked or did not terminate: " + str(resp["panic"])[:200]] if pid in ("C07", "C11", "C05", "C06", "C08", "C10", "C02") else []
+        return ["the analysis panicked or did not terminate: " + str(resp["panic"])[:200]] if pid in ("C07", "C11", "C05", "C06", "C08", "C10", "C02", "C20") else []
     accepted = bool(resp.get("set_ok")) and bool(resp.get("solved"))
     set_errs = synth.parse_errors(tree, resp.get("set_errs") or [])
     solve_errs = synth.parse_errors(tree, resp.get("solve_errs") or [])
@@ -443,7 +443,7 @@ PROPS = {
             "assumptions": ["partial: that analysis is a function of the current sources (files constrained !wireinject are invisible under -tags=wireinject) is the section hypothesis content_of; it is exactly what the histories test against the binary"]},
     "C19": {"theorems": ["C19_check_iff_gen", "C19_show_groups_by_needed_inputs", "C19_show_lists_included_sets", "C19_show_included_sets_terminates", "C19_show_groups_terminate", "C05_never_picks"], "engines": [eng_cli, eng_prog, eng_show, eng_layouts],
             "assumptions": ["the `show` grouping (gather's stack machine) and the included-sets work-list are modelled in Show.v and compared with the binary's output per set; the output is also checked against the property's wording computed independently from the program"]},
-    "C20": {"level_text": "Machine-checked proof in Coq 8.16.1 over an executable model tied to the code by a per-run correspondence; the modelled rules are total functions and zeroValue/funcOutput tables are regenerated and re-proved each run; the acceptance rules of the marker calls and of injector bodies are modelled (FrontRules.v, InjBody.v); crash-freedom of the Go code's pattern recognition rests on enumerated and grammar-generated spellings through gen and check (partial).", "theorems": ["C20_injector_template_iff", "C20_invalid_injector_calls_build", "C09_results", "C12_check_field_sound", "C07_terminates"], "engines": [eng_forms, eng_zerovalue, eng_funcoutput, eng_multi, eng_layouts, eng_body],
+    "C20": {"level_text": "Machine-checked proof in Coq 8.16.1 over an executable model tied to the code by a per-run correspondence; the modelled rules are total functions and zeroValue/funcOutput tables are regenerated and re-proved each run; the acceptance rules of the marker calls and of injector bodies are modelled (FrontRules.v, InjBody.v); crash-freedom of the Go code's pattern recognition rests on enumerated and grammar-generated spellings through gen and check (partial).", "theorems": ["C20_injector_template_iff", "C20_invalid_injector_calls_build", "C09_results", "C12_check_field_sound", "C07_terminates"], "engines": [eng_forms, eng_zerovalue, eng_funcoutput, eng_multi, eng_layouts, eng_body, eng_synth],
             "assumptions": ["partial: the front end's pattern recognition of marker-call arguments is not modelled in Coq; the crash-freedom claim for it rests on the enumerated spellings through the binary",
                             "proved parts: the modelled rules (funcOutput, field selection, cycle check) are total functions; zeroValue is total over the regenerated kind table"]},
 }
